@@ -11,6 +11,7 @@
 (*   rt      s         regs   sk[s] = from_hex_string(sk[s].to_hex_string())*)
 (*   impbad  s         regs   from_hex_string of a malformed ASCII string   *)
 (*   est     s  est cls       estimate_count() of sketch s                  *)
+(*   clear   s         regs   sk[s].clear()                                 *)
 (*   import  s         regs   a register state imported from hex; res =     *)
 (*                            "ok" (adopted; the export was checked to give *)
 (*                            the same registers back), "mismatch", "err"   *)
@@ -19,6 +20,12 @@
 (*   row     n  cls           one row of the single-register extremes:      *)
 (*                            n = number of states of the row on which      *)
 (*                            import, export/import or estimation failed    *)
+(* Lines of calls on a sketch also carry what estimate_count() returned,     *)
+(* right after the call, on the live sketch (`est`) and on a FRESH sketch    *)
+(* imported from the live sketch's export (`estf`); `eo` = "<live>/<fresh>"  *)
+(* outcomes ("ok" | "panic" | "none"), "" when not measured.  The two have   *)
+(* the same registers, so they must agree (the estimate is a function of    *)
+(* the registers only), and the all-zero state must estimate 0.              *)
 (* `regs` is the register vector of sketch s observed (through              *)
 (* to_hex_string) after the call, `res` the call's outcome                  *)
 (* ("ok" | "err" | "panic").  The element bytes are in the line, and index  *)
@@ -39,11 +46,20 @@ tvars == <<l, cur>>
 FromTup(t) == [i \in Idx |-> t[i + 1]]
 IsRegs(t)  == Len(t) = M /\ \A k \in 1..M : t[k] \in Val
 
+(* the estimate measured after a call: live sketch vs fresh import of its export *)
+EstClauses(r, obs, seen) ==
+    IF r.eo = "" THEN {}
+    ELSE (IF r.eo \in {"ok/ok", "ok/panic", "ok/none"} THEN {} ELSE {"EstimateReturns"})
+    \cup (IF r.eo = "ok/ok" /\ SameRegistersSameEstimate(obs, r.est, obs, r.estf) THEN {}
+          ELSE IF r.eo = "panic/panic" THEN {} ELSE {"EstimateOfRegistersOnly"})
+    \cup (IF r.eo = "ok/ok" /\ seen /\ ~EmptyEstimatesZero(obs, r.est) THEN {"EmptyEstimateZero"} ELSE {})
+
 Clauses(c, r) ==
     LET pre  == c[r.s]
         obs  == IF IsRegs(r.regs) THEN FromTup(r.regs) ELSE Empty
         seen == IsRegs(r.regs)
     IN
+    (IF r.k \in {"add", "addrej", "merge", "rt", "impbad", "clear", "acc"} THEN EstClauses(r, obs, seen) ELSE {}) \cup
     CASE r.k = "add" ->
              (IF r.res = "ok" THEN {} ELSE {"AddOutcome"})
         \cup (IF seen /\ obs = AddR(pre, IdxOf(r.el, r.off), RhoOf(r.el, r.off)) THEN {} ELSE {"AddRegisters"})
@@ -58,6 +74,8 @@ Clauses(c, r) ==
       [] r.k = "impbad" ->
              (IF r.res = "err" THEN {} ELSE {"MalformedOutcome"})
         \cup (IF seen /\ obs = pre THEN {} ELSE {"MalformedChanged"})
+      [] r.k = "clear" ->
+             (IF r.res = "ok" /\ seen /\ obs = Empty THEN {} ELSE {"ClearedIsEmpty"})
       [] r.k = "est" ->
              (IF r.res = "ok" THEN {} ELSE {"EstimateReturns"})
         \cup (IF r.res = "ok" /\ r.cls # "fin" THEN {"EstimateFinite"} ELSE {})
@@ -81,7 +99,7 @@ Step == /\ l <= Len(Rec)
         /\ LET r == Rec[l] IN
              /\ (IF r.k = "reset" THEN TRUE ELSE Report(Clauses(cur, r)))
              /\ cur' = (IF r.k = "reset" THEN Fresh
-                        ELSE IF r.k \in {"add", "addrej", "merge", "rt", "impbad", "import"} /\ IsRegs(r.regs)
+                        ELSE IF r.k \in {"add", "addrej", "merge", "rt", "impbad", "import", "clear"} /\ IsRegs(r.regs)
                                 /\ (r.k = "import" => r.res = "ok")
                              THEN [cur EXCEPT ![r.s] = FromTup(r.regs)]
                         ELSE cur)
